@@ -60,6 +60,8 @@ class Contract:
         self.trusted = False  # assume_external: the body is not verified
         self.interface = False  # contract of a protocol / base method used for calls on non-exact receivers
         self.name = node.name
+        self.ghost_def = False  # interface contract whose ensures only *define* ghost functions of the receiver: holds for every implementation
+        self.may_raise: list = []  # exceptions the function may raise under an unspecified condition (outside the contract's domain)
         for st in node.body:
             if isinstance(st, ast.FunctionDef):
                 if st.name in ("requires", "ensures", "raises", "modifies", "raises_ensures"):
@@ -73,9 +75,9 @@ class Contract:
                 n = st.targets[0].id
                 if n == "types":
                     self.types = ast.literal_eval(st.value)
-                elif n in ("returns", "self_class"):
+                elif n in ("returns", "self_class", "may_raise"):
                     setattr(self, n, ast.literal_eval(st.value))
-                elif n in ("inline", "pure_inline", "exact_self", "trusted", "interface"):
+                elif n in ("inline", "pure_inline", "exact_self", "trusted", "interface", "ghost_def"):
                     setattr(self, n, bool(ast.literal_eval(st.value)))
 
     def text_hash(self):
@@ -393,6 +395,10 @@ class ContractDB:
             for exc_name, cond in self.raise_clauses(it, con, nfr):
                 if it.branch(cond):
                     raise RaiseSig(self.mk_exc(it, exc_name, con))
+        for exc_name in con.may_raise:
+            # raised under a condition the contract leaves open: both outcomes are explored
+            if it.branch(it.fresh_plain("may_raise_" + exc_name, z3.BoolSort())):
+                raise RaiseSig(self.mk_exc(it, exc_name, con))
         old_heap = it.snapshot()
         mods = self.modifies_list(it, con, env, fr)
         for (obj, owner, f) in mods:
@@ -413,7 +419,28 @@ class ContractDB:
             nfr = self.contract_frame(it, con, self.fn_env(con.ensures, e2), fr, old_heap=old_heap, old_env=env)
             for name, term in self.eval_clauses_fn(it, con.ensures, nfr):
                 it.assume(term)
+        self._assume_ghost_defs(it, con, fi, env, result, fr, old_heap)
         return result
+
+    def _assume_ghost_defs(self, it, con, fi, env, result, fr, old_heap):
+        """An interface contract marked ghost_def defines ghost functions of the receiver as 'whatever this
+        method reports'; the definition holds for every implementation, so it is also available after
+        a call that was resolved to a class-specific contract."""
+        if con.interface or fi.cls is None or "self" not in env:
+            return
+        ic = self.interface_contract(f"{fi.module}.{fi.cls}", fi.name)
+        if ic is None or not ic[1].ghost_def or ic[1].ensures is None or ic[1] is con:
+            return
+        icon = ic[1]
+        e2 = {k: v for k, v in env.items()}
+        e2["result"] = result
+        try:
+            nfr = self.contract_frame(it, icon, self.fn_env(icon.ensures, e2), fr, old_heap=old_heap, old_env=env)
+            for name, term in self.eval_clauses_fn(it, icon.ensures, nfr):
+                it.assume(term)
+            it.notes.add(f"ghost definitions of interface contract {icon.name} assumed for implementation {fi.qname}")
+        except Unsupported:
+            pass
 
     def apply_contract_pure(self, it, con, fi, env, fr):
         if getattr(fr, "pure_code", False):
@@ -444,6 +471,8 @@ class ContractDB:
             nfr = self.contract_frame(it, con, self.fn_env(con.ensures, e2), fr, old_heap=heap if heap is not None else it.heap, old_env=env)
             for name, term in self.eval_clauses_fn(it, con.ensures, nfr):
                 it.assume(term)
+        heap = fr.heap_override
+        self._assume_ghost_defs(it, con, fi, env, result, fr, heap if heap is not None else it.heap)
         return result
 
     def raise_clauses(self, it, con: Contract, nfr: Frame):
